@@ -85,6 +85,8 @@ def coq_ty(t):
         return "unit"
     if k == "obj":
         return f"py_{t[1]}_state"
+    if k == "maybe":
+        return f"(option {coq_ty(t[1])})"
     if k == "opt":
         return f"(option {coq_ty(t[1])})"
     if k == "list":
@@ -196,6 +198,7 @@ ATTRS = {
     ("Attribute", "default_value"): ("(a_default {0})", ANY),
     ("Attribute", "null_value"): ("(a_null {0})", ANY),
     ("Attribute", "domain"): ("(a_dom {0})", Opt(DOMAIN)),
+    ("PFeature", "name"): ("(name {0})", STR),
     ("Domain", "range_list"): ("(dom_ranges {0})", List(RANGE)),
     ("Domain", "element_list"): ("(dom_elems {0})", List(ANY)),
     ("Range", "min_value"): ("(rg_min {0})", ANY),
@@ -329,6 +332,7 @@ class Translator:
         self.enums = {}
         self.module_consts = {}
         self.ifexp_as_str = False
+        self.maybe_vars = {}
         self.written = None
         self.join_ifs = False
         self.module_tables = {}
@@ -470,6 +474,10 @@ class Translator:
     def e_Name(self, e, env):
         if e.id in env.vars:
             code, ty = env.vars[e.id]
+            if ty[0] == "maybe":
+                # a variable that is first bound inside a loop and read after it: bound or not is part of the state
+                self.cur.intrinsic_eff = True
+                return Val(f"(match {code} with Some v => Ok v | None => Err UnboundLocalError end)", ty[1], True)
             return Val(code, ty)
         if e.id in CORE_CONSTS:
             code, ty = CORE_CONSTS[e.id]
@@ -483,7 +491,11 @@ class Translator:
         if e.id in self.module_strlists:
             return Val("[" + "; ".join(coq_str(x) for x in self.module_strlists[e.id]) + "]", List(STR))
         if e.id in env.leaked:
-            fail(e, "a variable first bound inside a loop is read after the loop")
+            t = self.vartypes.get(e.id)
+            if t is None or t == UNKNOWN or e.id in self.maybe_vars:
+                fail(e, "a variable first bound inside a loop is read after the loop")
+            self.maybe_vars[e.id] = t
+            raise Retype()
         if e.id in self.vartypes or e.id in self.assigned_names:
             # a local that is not bound on this path
             self.cur.intrinsic_eff = True
@@ -736,6 +748,11 @@ class Translator:
         fail(ctx, f"`in` on a table with a key of type {a.ty}")
 
     def in_code(self, a, l, ctx):
+        if a.ty == ANY and l.ty[0] == "tuple" and set(l.ty[1]) == {STR} and not l.eff:
+            l = Val("[" + l.code[1:-1].replace(", ", "; ") + "]", List(STR))
+        if a.ty == ANY and l.ty == List(STR):
+            return self.lift([a, l], lambda c: Val(
+                f"(match {c[0]} with VStr s => existsb (String.eqb s) {c[1]} | _ => false end)", BOOL))
         if a.ty == STR and l.ty == ANY:
             return self.lift([a, l], lambda c: Val(f"(aval_has {c[1]} {c[0]})", BOOL))
         if a.ty == CHAR and l.ty == STR:
@@ -1019,6 +1036,10 @@ class Translator:
                     len(e.args[0].value) == 1 and e.args[1].value == "":
                 ch = coq_str(e.args[0].value)
                 return self.lift([recv], lambda c: Val(f"(str_remove_char {ch}%char {c[0]})", STR))
+            if recv.ty == ANY and fn.attr == "get" and len(e.args) == 2:
+                kk = self.coerce(self.tr(e.args[0], env), STR, e)
+                dd = self.coerce(self.tr(e.args[1], env), ANY, e)
+                return self.lift([recv, kk, dd], lambda c: Val(f"(aval_get_default {c[0]} {c[1]} {c[2]})", ANY))
             if recv.ty == ANY and fn.attr == "get" and len(e.args) == 1:
                 kk = self.coerce(self.tr(e.args[0], env), STR, e)
                 return self.lift([recv, kk], lambda c: Val(f"(aval_get_default {c[0]} {c[1]} VNone)", ANY))
@@ -1529,6 +1550,15 @@ class Translator:
         return new
 
     def assign(self, name, v, rest, env, k, ctx):
+        if name in self.maybe_vars:
+            ty = self.note_type(name, v.ty, ctx)
+            v = self.coerce(v, ty, ctx)
+            v = self.lift([v], lambda c: Val(f"(Some {c[0]})", ("maybe", ty)))
+            n = self.fresh(name + "_")
+
+            def cont_m(code):
+                return f"(let {n} := {code} in {self.block(rest, env.bind(name, n, ('maybe', ty)), k)})"
+            return self.wrap(v, cont_m)
         ty = self.note_type(name, v.ty, ctx)
         v = self.coerce(v, ty, ctx)
         n = self.fresh(name + "_")
@@ -1855,6 +1885,13 @@ class Translator:
         """`with open(<path>, 'w', encoding='utf8') as file: file.write(<name>)` — the only I/O the writers do.
         Nothing changes at the level of values; the text written must be the local that is returned afterwards
         (checked at the `return`), which is the "returns what it wrote" clause of C12 read off the source."""
+        if is_json_load_with(s):
+            # `with open(path, 'r', encoding='utf-8') as file: data = json.load(file); …`: the loaded document is an INPUT of
+            # the translated function (its extra parameter `loaded`); reading and decoding the file is outside
+            self.tr(s.items[0].context_expr.args[0], env)
+            tgt = s.body[0].targets[0].id
+            self.note_type(tgt, ANY, s)
+            return self.block(s.body[1:] + rest, env.bind(tgt, pname("loaded"), ANY), k)
         ok = (len(s.items) == 1 and isinstance(s.items[0].context_expr, ast.Call)
               and ast.unparse(s.items[0].context_expr.func) == "open"
               and len(s.items[0].context_expr.args) == 2 and ast.unparse(s.items[0].context_expr.args[1]) == "'w'"
@@ -1910,6 +1947,7 @@ class Translator:
                 self.assigned_names.add(node.id)
         self.vartypes = {}
         self.written = None
+        self.maybe_vars = {}
         for _ in range(8):
             self.seen_decl = set()
             env = Env()
@@ -1918,6 +1956,8 @@ class Translator:
                 self.local_containers |= set(f.inouts)
             for (pn, pt, pd) in f.params:
                 env = env.bind(pn, pname(pn), pt)
+            for mn, mt in self.maybe_vars.items():
+                env = env.bind(mn, f"(@None {coq_ty(mt)})", ("maybe", mt))
             try:
                 def k_end(en):
                     if (f.store or f.inouts) and f.ret == NONE:
@@ -1933,6 +1973,17 @@ class Translator:
 
 def pname(n):
     return n if n == "self" else n + "_0"
+
+
+def is_json_load_with(s):
+    return (isinstance(s, ast.With) and len(s.items) == 1 and isinstance(s.items[0].context_expr, ast.Call)
+            and ast.unparse(s.items[0].context_expr.func) == "open" and len(s.items[0].context_expr.args) == 2
+            and ast.unparse(s.items[0].context_expr.args[1]) in ("'r'", '"r"')
+            and [(kw.arg, ast.unparse(kw.value).replace('"', "'")) for kw in s.items[0].context_expr.keywords] in (
+                [("encoding", "'utf-8'")], [("encoding", "'utf8'")])
+            and isinstance(s.items[0].optional_vars, ast.Name) and s.body
+            and isinstance(s.body[0], ast.Assign) and len(s.body[0].targets) == 1 and isinstance(s.body[0].targets[0], ast.Name)
+            and ast.unparse(s.body[0].value) == f"json.load({s.items[0].optional_vars.id})")
 
 
 class Retype(Exception):
@@ -2076,6 +2127,8 @@ def collect(unit):
             else:
                 f.params.append((arg.arg, OVERRIDE_PARAM.get((f.cls, f.node.name, arg.arg)) or parse_ann(arg.annotation, arg), d))
         f.ret = OVERRIDE_RET.get(key) or parse_ann(f.node.returns, f.node)
+        if any(is_json_load_with(x) for x in f.node.body):
+            f.params.append(("loaded", ANY, None))
         if key[0] is None and key[1] in unit.get("store_funcs", []):
             f.store = True
             f.export = key[1] in unit.get("store_exports", [])
@@ -2364,14 +2417,15 @@ UNITS = [
     {"name": "glencoe", "imports": " Gen.Src_fm Gen.Tables_glencoe",
      "files": [("transformations/glencoe_writer.py", {},
                 ["_to_json", "_get_features_info", "_get_tree_info", "_get_constraints_info", "_get_ctc_info"])]},
-    {"name": "glencoer", "imports": " Gen.Src_fm",
+    {"name": "glencoer", "imports": " Gen.Src_fm", "pure_features": True,
      "files": [("transformations/glencoe_reader.py", {}, [])],
-     "objects": {"transformations/glencoe_reader.py": {"GlencoeReader": ["_parse_ast_constraint"]}}},
+     "objects": {"transformations/glencoe_reader.py": {"GlencoeReader": ["_parse_ast_constraint", "_parse_tree",
+                                                                          "_parse_constraints", "transform"]}}},
     {"name": "jsonr", "imports": " Gen.Src_fm", "pure_features": True,
      "files": [("transformations/json_writer.py", {}, []),
                ("transformations/json_reader.py", {}, ["parse_constraints", "parse_ast_constraint", "parse_tree",
                                                        "parse_attributes", "parse_relations"])],
-     "objects": {"transformations/json_reader.py": {"JSONReader": ["parse_json"]}}},
+     "objects": {"transformations/json_reader.py": {"JSONReader": ["parse_json", "transform"]}}},
     {"name": "json", "imports": " Gen.Src_fm",
      "files": [("transformations/json_writer.py", {},
                 ["to_json", "get_tree_info", "get_attributes_info", "get_constraints_info", "get_ctc_info"])]},
